@@ -8,3 +8,14 @@ check('C06',
       'reference model mc/models/numeric.py (self-tested against F&O examples); xs:float compared through binary32 rounding; '
       'decimal precision beyond 18 digits and float idiv beyond 2^53 are implementation-defined and compared with slack',
       'DESIGN.md section 3 C06')
+check('C01',
+      'bounded-exhaustive enumeration of trees x path expressions against an XDM reference model, bound to libxml2',
+      'All labelled ordered trees over two element names up to 4 (quick) / 5 (thorough) elements x decoration profiles (attributes, '
+      'text/tail, comments, PIs, namespaces, duplicate text) x every path of the 13-axis step grammar with 1-3 steps, abbreviated and '
+      'explicit forms, predicates and parenthesised sub-paths x root kind {element, fragment, document} x {xml.etree, lxml} x parser '
+      'versions x context items are evaluated on the real token tree and compared node-for-node (identity, no duplicates, document '
+      'order) with a reference XDM evaluator; libxml2 is run on every document-rooted lxml case and must agree with the reference.',
+      'reference mc/models/xdm.py (axis-partition self-test; libxml2 agreement enforced in-run as a harness error); following:: from '
+      'attribute/namespace nodes is not judged because the XDM definition and libxml2 disagree; absolute paths whose first axis contains '
+      'the dummy document itself are not judged for Element roots',
+      'DESIGN.md section 3 C01')
